@@ -68,21 +68,24 @@ def synth_block(k0, j0, nrows, ncols):
     return (A_ROW * k + A_COL * j) % 65536 - 32768
 
 
-def synth_tile(name):
+def synth_tile(name, out=None):
     """The whole synthetic tile as int16 (6000, 4800) using one 57.6 MB buffer: the sum of
     the row and column terms wraps modulo 2**16 in uint16 arithmetic; x - 32768 is
-    x XOR 0x8000 reinterpreted as int16."""
+    x XOR 0x8000 reinterpreted as int16.  `out`: uint16 buffer to overwrite."""
     k0, j0 = tile_origin(name)
     a = ((A_ROW * np.arange(k0, k0 + TILE_ROWS, dtype=np.int64)) % 65536).astype(np.uint16)
     b = ((A_COL * np.arange(j0, j0 + TILE_COLS, dtype=np.int64)) % 65536).astype(np.uint16)
-    buf = np.empty((TILE_ROWS, TILE_COLS), dtype=np.uint16)
+    buf = np.empty((TILE_ROWS, TILE_COLS), dtype=np.uint16) if out is None else out
     np.add(a[:, None], b[None, :], out=buf)
     np.bitwise_xor(buf, np.uint16(0x8000), out=buf)
     return buf.view(np.int16)
 
 
 class TileLRU:
-    """At most `size` synthetic tiles alive (57.6 MB each)."""
+    """At most `size` synthetic tiles alive (57.6 MB each).  With size == 1 a single buffer
+    is overwritten in place, so that a caller which still holds the previous tile while it
+    asks for the next one (the loop in SRTM30.elevation does) keeps one tile alive, not two.
+    An implementation that fetched all tiles before using them would need size > 1."""
 
     def __init__(self, size=2):
         self.size = size
@@ -90,9 +93,20 @@ class TileLRU:
         self.tiles = {}
         self.made = 0
         self.requests = []
+        self._buf = None
 
     def get(self, name):
         self.requests.append(name)
+        if self.size == 1:
+            if self.names != [name]:
+                if self._buf is None:
+                    self._buf = np.empty((TILE_ROWS, TILE_COLS), dtype=np.uint16)
+                synth_tile(name, out=self._buf)
+                self.names = [name]
+                self.made += 1
+            v = self._buf.view(np.int16)
+            v.setflags(write=False)
+            return v
         if name in self.tiles:
             self.names.remove(name)
             self.names.append(name)
